@@ -296,6 +296,7 @@ func checkMain(args []string) int {
 			if renv == nil {
 				renv = job.r.EntryEnv
 			}
+			useCtx(o.Ctx)
 			if renv != nil {
 				if e, perr := ParseExpr(k.Region); perr == nil {
 					if rt, eerr := renv.Bool(e); eerr == nil {
